@@ -5,6 +5,30 @@ V = os.path.dirname(os.path.dirname(os.path.abspath(__file__)))
 PY = '/venv/bin/python'
 
 CHECKS = {
+    'C01': ('model_checking', 'stateless deviation-bounded schedule exploration of the real Controller/Engine classes under a controlled scheduler (CHESS style), invariant monitor at every launch',
+            'E1',
+            'Implementation-level model checking: the real Controller, ComponentState, Engine, RepeatingEngine and monitor classes run under a '
+            'virtual runtime that owns rx schedulers, threads, events, locks, sleeps, the clock and the task backend. ~500 (workflow DAG x exit '
+            'script) scenarios are executed on the canonical fair schedule and every schedule with <=1 deviation is executed for the core '
+            'scenarios (thorough: for every single-fault scenario). The launch-ordering invariant is evaluated at every task creation and every '
+            'ComponentState.run(). Bounded: <=4-5 components, <=2 stages, deviation bound 1.',
+            'scripted task backend/clock/output listing; scheduling points at synchronisation operations only; optimizer, hybrid, memoization off',
+            'DESIGN.md §2.1, §3 C01'),
+    'C02': ('model_checking', 'stateless deviation-bounded schedule exploration of the real Controller/Engine classes under a controlled scheduler, final-state oracle from an independent reference model',
+            'E1',
+            'Same executions as C01. After every execution: the stage loop terminated within the virtual horizon, every component of the '
+            'stages that ran is in exactly one final state, and the final-state map, run() verdict and stage state equal the reference model of '
+            'the documented rules (success/shutdownOn/restart budget/shutdown propagation/aggregation). Found and fixed a lost-kill-after-restart hang.',
+            'same as C01; same-stage observers of shut-down subjects may end finished or shut-down (statement leaves it open)',
+            'DESIGN.md §2.1, §3 C02'),
+    'C12': ('model_checking', 'exhaustive enumeration of exit-reason x restart-hook-answer histories through the real restart path under the controlled runtime, policy monitor',
+            'E1',
+            'History enumeration on the implementation: for 30 (quick) / 120 (thorough) option combinations (maxRestarts, restartHookFile, '
+            'restartHookOn, shutdownOn, stability answer) every exit-reason sequence of the stated prefix tree and every single restart-hook '
+            'answer deviation is driven through postMortemCheck -> _restartComponent -> ComponentState.restart -> Engine.restart -> run with a '
+            'real hook file; every relaunch is checked against the policy of the statement (restartable reason, budget, resubmission cap, final state).',
+            'canonical schedule only (policy is sequential per component); upper bounds only; scripted task backend and hook answers',
+            'DESIGN.md §3 C12'),
     # id: (level, technique, engine, text, note, design_ref)
     'C20': ('exploration', 'exhaustive enumeration of stage-weight grids and controller answers on the real loader and StatusMonitor',
             'E2',
